@@ -98,6 +98,12 @@ func (s *Sched) parkTimer(d time.Duration) *simTimer {
 	if proc == "" {
 		panic("sim: NewTimer with no current process")
 	}
+	if l := s.leases[proc]; l != nil && l.ctx != nil && l.ctx.Err() != nil {
+		// the caller's role context is already cancelled: every `select` on this timer and the context takes the context branch at
+		// once. The process is not at rest: it keeps running until it parks at its role gate (a timer that never fires keeps the
+		// choice deterministic).
+		return t
+	}
 	s.parked[proc] = &parked{kind: gTimer, deadline: s.now.Add(d), fire: t.c}
 	s.current = ""
 	s.cond.Broadcast()
